@@ -7,8 +7,8 @@ ID = "C29"
 PROP_MODULE = "SquidModel.Properties.C29"
 MODEL = "c29"
 GEN = ["cc_directives"]
-MAX_REPORT = 150
-MINIMISE_BUDGET = 120
+MAX_REPORT = 80
+MINIMISE_BUDGET = 60
 RULE = ("p <hex>: HttpHdrCc::parse on a NUL-free field value (< 64 KB), state read through the accessors, packInto, parse of the packed "
         "text; judged by a python reference written from the RFC 9111 grammar and the property text (first occurrence wins, numeric "
         "argument = 1*DIGIT <= INT32_MAX else absent, quoted-string field lists unescaped, unknown directives kept verbatim in order) "
